@@ -2,7 +2,7 @@
 META = dict(
   level_text='Bounded model checking of the real predicate functions against exact 128-bit integer references, for all inputs in the stated ranges; each obligation is a solver verdict over the whole input space of the harness, not a sample.',
   level_note='Trusted: clang-14/opt-14, the ir2c translator (self-tested every run against the clang-compiled IR), CBMC and the SMT/SAT back ends. Bounds per obligation are in the evidence file.',
-  functions=['Clipper2Lib::Multiply', 'Clipper2Lib::ProductsAreEqual', 'Clipper2Lib::CrossProductSign<long> (128-bit and portable branches)', 'Clipper2Lib::IsCollinear<long>', 'Clipper2Lib::CrossProduct<long> (double)', 'Clipper2Lib::GetSegmentIntersectPt<long> (parallelism)'],
+  functions=['PointInPolygon<long> (grids)', 'Area<long> / IsPositive (overflow freedom)', 'Clipper2Lib::Multiply', 'Clipper2Lib::ProductsAreEqual', 'Clipper2Lib::CrossProductSign<long> (128-bit and portable branches)', 'Clipper2Lib::IsCollinear<long>', 'Clipper2Lib::CrossProduct<long> (double)', 'Clipper2Lib::GetSegmentIntersectPt<long> (parallelism)'],
   assumptions=['coordinate differences fit int64 (as the property states); INT64_MIN differences excluded on the portable branch (std::abs is undefined there)', 'trusted identity for the portable-branch obligation: a*b == sgn(a)sgn(b)*(|a|*|b|)'],
   outside=[],
 )
